@@ -186,7 +186,7 @@ func c16R1(c *Ctx) {
 				continue
 			}
 			for _, cl := range s.cacheCalls(p, fn) {
-				m := cl.Common().Method.Name()
+				m := cn(cl.Common().Method)
 				if !strings.HasPrefix(m, "SetNext") && !strings.HasPrefix(m, "IncrNext") {
 					continue
 				}
@@ -369,7 +369,7 @@ func c16R2(c *Ctx) {
 						continue
 					}
 					for _, cl := range s.cacheCalls(p, fn) {
-						m := cl.Common().Method.Name()
+						m := cn(cl.Common().Method)
 						if !strings.HasPrefix(m, "SetNext") {
 							continue
 						}
@@ -432,7 +432,7 @@ func c16R2(c *Ctx) {
 					continue
 				}
 				for _, cl := range s.cacheCalls(p, fn) {
-					m := cl.Common().Method.Name()
+					m := cn(cl.Common().Method)
 					if !strings.HasPrefix(m, "SetNext") {
 						continue
 					}
@@ -497,7 +497,7 @@ func c16R2(c *Ctx) {
 						continue
 					}
 					for _, cl := range s.cacheCalls(p, fn) {
-						if cl.Common().Method.Name() == "SetNext"+dir+"MsgSeqNum" {
+						if cn(cl.Common().Method) == "SetNext"+dir+"MsgSeqNum" {
 							o := p.Origin(cl.Common().Args[0])
 							if o.Kind == "field" {
 								lf = o.Field
@@ -546,7 +546,7 @@ func (p *Prog) stmtTextOfArg(v ssa.Value) string {
 	o := p.Origin(v)
 	var f *types.Var
 	o.Mentions(func(x *Org) bool {
-		if x.Kind == "field" && strings.HasPrefix(x.Field.Name(), "sql") && f == nil {
+		if x.Kind == "field" && strings.HasPrefix(cn(x.Field), "sql") && f == nil {
 			if bt, ok := x.Field.Type().Underlying().(*types.Basic); ok && bt.Kind() == types.String {
 				f = x.Field
 			}
@@ -722,7 +722,7 @@ func c16R4(c *Ctx) {
 		// persistent: Reset → cache.Reset, delete messages on the medium, persist fresh state (directly or via Refresh)
 		cacheReset := func(fn *ssa.Function) ssa.CallInstruction {
 			for _, cl := range s.cacheCalls(p, fn) {
-				if cl.Common().Method.Name() == "Reset" {
+				if cn(cl.Common().Method) == "Reset" {
 					return cl
 				}
 			}
@@ -773,7 +773,7 @@ func c16R4(c *Ctx) {
 		}
 		for _, fn := range scope {
 			for _, cl := range s.cacheCalls(p, fn) {
-				if cl.Common().Method.Name() == "CreationTime" && (fn != reset || cr == nil || InstrDominates(cr, cl)) {
+				if cn(cl.Common().Method) == "CreationTime" && (fn != reset || cr == nil || InstrDominates(cr, cl)) {
 					ctRead = true
 				}
 			}
@@ -841,7 +841,7 @@ func c16R5(c *Ctx) {
 				}
 				a := p.Origin(cl.Common().Args[1])
 				what = a.String()
-				if a.Kind == "binop" && a.Op == token.ADD && a.Y.IsConstInt(1) && a.X.Kind == "call" && a.X.Method != nil && a.X.Method.Name() == "Next"+dir+"MsgSeqNum" {
+				if a.Kind == "binop" && a.Op == token.ADD && a.Y.IsConstInt(1) && a.X.Kind == "call" && a.X.Method != nil && cn(a.X.Method) == "Next"+dir+"MsgSeqNum" {
 					ok = true
 				}
 			}
@@ -849,7 +849,7 @@ func c16R5(c *Ctx) {
 			// Next<dir> delegates to cache.Next<dir>
 			okN := false
 			for _, cl := range s.cacheCalls(p, next) {
-				if cl.Common().Method.Name() == "Next"+dir+"MsgSeqNum" {
+				if cn(cl.Common().Method) == "Next"+dir+"MsgSeqNum" {
 					okN = true
 				}
 			}
@@ -978,7 +978,7 @@ func c16R7(c *Ctx) {
 						}
 					}
 				}
-				if !used && (strings.HasSuffix(n, ").Close") || strings.HasSuffix(n, ").Rollback")) && (fn.Parent() != nil || fn.Name() == "Close") {
+				if !used && (strings.HasSuffix(n, ").Close") || strings.HasSuffix(n, ").Rollback")) && (fn.Parent() != nil || fnName(fn) == "Close") {
 					c.OK(name, pos, "Close at shutdown / inside a deferred closure (tabulated idiom: no store state depends on it)")
 					continue
 				}
